@@ -1,25 +1,13 @@
 package checks
 
-import (
-	"fmt"
+import "verif/lab/core"
 
-	"verif/lab/core"
-	"verif/lab/ledger"
-)
-
+// C01 — token supply is conserved.
 func C01(run *core.Run) {
-	runs, stats, err := traceRepoTests("./vm/embedded/tests/", ".", func(p *ledger.Projector) { p.Observer = ledger.StandardObserver(0) })
-	if err != nil {
-		core.Fatal("%v", err)
+	run.Assume = []string{
+		"trace validation covers the executions recorded (repository contract tests under hooks, seeded lab walks); inside them every accepted block is checked against the specification's arithmetic over ALL accounts",
+		"the projector (lab/ledger) decodes balances and token records from the state-change patches; patches are the consensus-relevant state change (momentums commit to their hash)",
 	}
-	fmt.Println(len(runs), stats)
-	vs, states, err := validateLedgerRuns(runs, "Conservation AtMostOnce FIFO Backed")
-	if err != nil {
-		core.Fatal("%v", err)
-	}
-	fmt.Println(states)
-	for _, v := range vs {
-		fmt.Printf("REJECT %s line %d inv=%s ev=%.300s\n", v.Run, v.Line, v.Inv, core.JSON(v.Event))
-	}
+	ledgerFamily(run, ledgerFamilyOpts{prop: "C01", invariants: "Conservation AtMostOnce FIFO Backed", repoPattern: "TestToken|TestSimple|TestSendBlock|TestHtlc|TestPlasma", walks: 3, walkLen: 120})
 	run.Finish()
 }
